@@ -1,9 +1,165 @@
-(** Proofs/TimeOps.v — lemmas about Model/TimeOps.v (C13). *)
-From Coq Require Import ZArith List Bool Lia ZifyBool.
+(** Proofs/TimeOps.v — lemmas about Model/TimeOps.v (C13): shift, stretch,
+    redundant-event removal, concatenation. *)
+From Coq Require Import ZArith List Bool Lia ZifyBool Permutation Sorted.
 From NS Require Import Base.Sx Base.NoteSeq Model.TimeOps.
 Import ListNotations.
 Local Open Scope Z_scope.
 Ltac Zify.zify_post_hook ::= Z.to_euclidean_division_equations.
 
-Lemma shift_rejects_nonpositive : forall d s, d <= 0 -> shift d s = Err EValue.
-Proof. intros d s H. unfold shift. destruct (d <=? 0) eqn:E; [reflexivity|lia]. Qed.
+(** * Every time of a sequence (for exactness / well-formedness statements) *)
+Definition all_times (s : seq) : list Z :=
+  flat_map (fun n => [n_start n; n_end n]) (s_notes s) ++ map tp_time (s_tempos s)
+  ++ map ts_time (s_tsigs s) ++ map ks_time (s_ksigs s) ++ map tx_time (s_texts s)
+  ++ map cc_time (s_ccs s) ++ map pb_time (s_bends s) ++ map sa_time (s_sects s) ++ [s_total s].
+
+(** [moved f s r]: every note and every event of all eight repeated fields of
+    [r] is the corresponding one of [s] with its time(s) replaced by [f time],
+    nothing else about it changed, in the same order. *)
+Definition moved (f : Z -> Z) (s r : seq) : Prop :=
+  s_notes r = map (note_t f) (s_notes s) /\
+  map tp_time (s_tempos r) = map (fun t => f (tp_time t)) (s_tempos s) /\
+  s_tsigs r = map (tsig_t f) (s_tsigs s) /\
+  s_ksigs r = map (ksig_t f) (s_ksigs s) /\
+  s_texts r = map (text_t f) (s_texts s) /\
+  s_ccs r = map (cc_t f) (s_ccs s) /\
+  s_bends r = map (bend_t f) (s_bends s) /\
+  s_sects r = map (sect_t f) (s_sects s).
+
+(** The fields no time operation may touch. *)
+Definition same_rest (s r : seq) : Prop :=
+  s_qsteps r = s_qsteps s /\ s_spq r = s_spq s /\ s_sps r = s_sps s /\
+  s_tpq r = s_tpq s /\ s_rest r = s_rest s.
+
+(** * shift_sequence_times *)
+Lemma shift_spec : forall d s,
+  0 < d -> is_quantized s = false ->
+  exists r, shift d s = Ok r /\
+    moved (fun t => t + d) s r /\
+    map tp_qpm (s_tempos r) = map tp_qpm (s_tempos s) /\
+    s_total r = s_total s + d /\
+    s_sub r = (0, 0) /\
+    same_rest s r.
+Proof.
+  intros d s Hd Hq. unfold shift. rewrite Hq.
+  destruct (d <=? 0) eqn:E; [lia|].
+  eexists; split; [reflexivity|].
+  unfold moved, same_rest; cbn [s_notes s_tempos s_tsigs s_ksigs s_texts s_ccs s_bends s_sects
+    s_total s_sub s_qsteps s_spq s_sps s_tpq s_rest].
+  rewrite !map_map. cbn [tempo_t tp_time tp_qpm]. repeat split; reflexivity.
+Qed.
+
+Lemma shift_error_iff : forall d s e,
+  shift d s = Err e <->
+  (d <= 0 /\ e = EValue) \/ (0 < d /\ is_quantized s = true /\ e = EQuant).
+Proof.
+  intros d s e. unfold shift.
+  destruct (d <=? 0) eqn:E; [|destruct (is_quantized s) eqn:Q]; split; intro H.
+  - inversion H; left; split; [lia|reflexivity].
+  - destruct H as [[_ ->]|[H _]]; [reflexivity|lia].
+  - inversion H; right; repeat split; lia.
+  - destruct H as [[H _]|[_ [_ ->]]]; [lia|reflexivity].
+  - discriminate.
+  - destruct H as [[H _]|[_ [H _]]]; [lia|discriminate].
+Qed.
+
+(** A shifted well-formed sequence is well-formed. *)
+Lemma Forall_map_iff : forall {A B} (P : B -> Prop) (g : A -> B) l,
+  Forall P (map g l) <-> Forall (fun x => P (g x)) l.
+Proof. intros. rewrite !Forall_forall. setoid_rewrite in_map_iff. firstorder (subst; auto). Qed.
+
+Lemma shift_wf : forall d s r, shift d s = Ok r -> seq_wf s -> seq_wf r.
+Proof.
+  intros d s r H W. unfold shift in H.
+  destruct (d <=? 0) eqn:E; [discriminate|]. destruct (is_quantized s); [discriminate|].
+  inversion H; subst r; clear H. assert (Hd : 0 < d) by lia. clear E.
+  destruct W as (Wn & W1 & W2 & W3 & W4 & W5 & W6 & W7).
+  unfold seq_wf; cbn [s_notes s_tempos s_tsigs s_ksigs s_texts s_ccs s_bends s_sects s_total].
+  repeat split; apply Forall_map_iff;
+    match goal with
+    | |- Forall _ (s_notes _) =>
+        eapply Forall_impl; [|exact Wn]; intros n (A & B & C);
+        destruct n; unfold note_wf, note_t, note_with_times in *; cbn in *; lia
+    | _ => idtac
+    end.
+  - eapply Forall_impl; [|exact W1]; intros ? HH; cbv beta in HH; cbn; lia.
+  - eapply Forall_impl; [|exact W2]; intros ? HH; cbv beta in HH; cbn; lia.
+  - eapply Forall_impl; [|exact W3]; intros ? HH; cbv beta in HH; cbn; lia.
+  - eapply Forall_impl; [|exact W4]; intros ? HH; cbv beta in HH; cbn; lia.
+  - eapply Forall_impl; [|exact W5]; intros ? HH; cbv beta in HH; cbn; lia.
+  - eapply Forall_impl; [|exact W6]; intros ? HH; cbv beta in HH; cbn; lia.
+  - eapply Forall_impl; [|exact W7]; intros ? HH; cbv beta in HH; cbn; lia.
+Qed.
+
+(** * stretch_note_sequence *)
+
+(** The exactness side condition of the tick model: every product t * fn/fd
+    and every quotient qpm / (fn/fd) is an integer (the generators' dyadic
+    grid; binary64 computes these without rounding). *)
+Definition stretch_exact (fn fd : Z) (s : seq) : bool :=
+  forallb (fun t => (t * fn) mod fd =? 0) (all_times s) &&
+  forallb (fun q => (q * fd) mod fn =? 0) (map tp_qpm (s_tempos s)).
+
+Lemma stretch_spec : forall fn fd s,
+  0 < fn -> 0 < fd -> is_quantized s = false ->
+  exists r, stretch fn fd s = Ok r /\
+    moved (mulf fn fd) s r /\
+    map tp_qpm (s_tempos r) = map (fun t => divf fn fd (tp_qpm t)) (s_tempos s) /\
+    s_total r = mulf fn fd (s_total s) /\
+    s_sub r = s_sub s /\
+    same_rest s r.
+Proof.
+  intros fn fd s Hn Hd Hq. unfold stretch. rewrite Hq.
+  assert (Hid : forall t, mulf fd fd t = t) by (intro t; unfold mulf; nia).
+  assert (Hidq : forall q, divf fd fd q = q) by (intro q; unfold divf; nia).
+  destruct (fn =? fd) eqn:E.
+  - assert (fn = fd) by lia. subst fn.
+    eexists; split; [reflexivity|].
+    assert (Hm : forall {A} (g : A -> A) (l : list A), (forall x, g x = x) -> l = map g l).
+    { intros A g l Hg. induction l; cbn; [reflexivity|]. rewrite Hg, <- IHl. reflexivity. }
+    unfold moved, same_rest. repeat split; try reflexivity.
+    + apply Hm. intros []; unfold note_t, note_with_times; cbn. rewrite !Hid. reflexivity.
+    + apply map_ext. intro. rewrite Hid. reflexivity.
+    + apply Hm. intros []; unfold tsig_t; cbn. rewrite Hid. reflexivity.
+    + apply Hm. intros []; unfold ksig_t; cbn. rewrite Hid. reflexivity.
+    + apply Hm. intros []; unfold text_t; cbn. rewrite Hid. reflexivity.
+    + apply Hm. intros []; unfold cc_t; cbn. rewrite Hid. reflexivity.
+    + apply Hm. intros []; unfold bend_t; cbn. rewrite Hid. reflexivity.
+    + apply Hm. intros []; unfold sect_t; cbn. rewrite Hid. reflexivity.
+    + apply map_ext. intro. rewrite Hidq. reflexivity.
+    + rewrite Hid. reflexivity.
+  - eexists; split; [reflexivity|].
+    unfold moved, same_rest; cbn [s_notes s_tempos s_tsigs s_ksigs s_texts s_ccs s_bends s_sects
+      s_total s_sub s_qsteps s_spq s_sps s_tpq s_rest].
+    rewrite !map_map. cbn [tp_time tp_qpm]. repeat split; reflexivity.
+Qed.
+
+(** Under the exactness condition the model's [t * fn / fd] IS the product. *)
+Lemma stretch_exact_times : forall fn fd s t,
+  0 < fd -> stretch_exact fn fd s = true -> In t (all_times s) -> mulf fn fd t * fd = t * fn.
+Proof.
+  intros fn fd s t Hd H Hin. unfold stretch_exact in H. apply andb_true_iff in H. destruct H as [H _].
+  rewrite forallb_forall in H. specialize (H t Hin). unfold mulf. nia.
+Qed.
+
+Lemma stretch_exact_qpm : forall fn fd s tp,
+  0 < fn -> stretch_exact fn fd s = true -> In tp (s_tempos s) -> divf fn fd (tp_qpm tp) * fn = tp_qpm tp * fd.
+Proof.
+  intros fn fd s tp Hn H Hin. unfold stretch_exact in H. apply andb_true_iff in H. destruct H as [_ H].
+  rewrite forallb_forall in H. specialize (H (tp_qpm tp) (in_map _ _ _ Hin)). unfold divf. nia.
+Qed.
+
+Lemma stretch_error_iff : forall fn fd s e,
+  stretch fn fd s = Err e <-> is_quantized s = true /\ e = EQuant.
+Proof.
+  intros. unfold stretch. destruct (is_quantized s); [|destruct (fn =? fd)]; split; intro H;
+    try discriminate; try (destruct H; discriminate).
+  - inversion H; auto.
+  - destruct H as [_ ->]; reflexivity.
+Qed.
+
+(** Stretching is order preserving on times (so it keeps start <= end <= total). *)
+Lemma mulf_monotone : forall fn fd a b, 0 <= fn -> 0 < fd -> a <= b -> mulf fn fd a <= mulf fn fd b.
+Proof. intros. unfold mulf. apply Z.div_le_mono; nia. Qed.
+
+Lemma mulf_nonneg : forall fn fd a, 0 <= fn -> 0 < fd -> 0 <= a -> 0 <= mulf fn fd a.
+Proof. intros. unfold mulf. apply Z.div_pos; nia. Qed.
